@@ -130,7 +130,9 @@ class PrinterBase:
                 target_value = self.constant_to_target.get(value, NotImplemented)
                 if target_value is not NotImplemented:
                     typ = self.get_type(expr)
-                    target_value = target_value.format(type=typ)
+                    # real_type: the component type of a complex constant
+                    real_typ = self.get_type(expr.context.real(expr)) if expr.get_type().is_complex else typ
+                    target_value = target_value.format(type=typ, real_type=real_typ)
                     result = self.make_constant(like, target_value)
                 else:
                     warnings.warn(
